@@ -208,7 +208,7 @@ def make_wallet(case, db_uri):
         seed = wallet_env.seed_bytes('c09-%s' % case['wseed'], case.get('seedlen', 32))
         case['_seed'] = seed
         mk = HDKey.from_seed(seed, network=network, witness_type=wt)
-        w = Wallet.create(name, keys=mk, network=network, witness_type=wt, db_uri=db_uri)
+        w = Wallet.create(name, keys=mk, network=network, witness_type=wt, db_uri=db_uri, account_id=case.get('default_account', 0))
         return w, wallet_ref.SingleRef(seed, network, wt)
     n, m = case['n'], case['m']
     seeds = [wallet_env.seed_bytes('c09-%s-co%d' % (case['wseed'], i)) for i in range(n)]
@@ -235,7 +235,7 @@ def run_wallet(case, col):
         return
     M = Monitor(col, case, ref, kind, network, wt)
     M.sync_rows(w)
-    accounts = [0]
+    accounts = sorted({0, case.get('default_account', 0)}) if kind == 'hd' else [0]
     ops = []
     mixed_ok = kind == 'hd' and not network.startswith('dogecoin')
     for step in range(case['n_ops']):
@@ -270,8 +270,8 @@ def run_wallet(case, col):
                         rk = ref.account_key(a.account_id)
                         if a.key().public_byte != rk.pub:
                             M.viol('new_account: account key is not the BIP32 derivation', a.key().public_hex, rk.pub.hex())
-                    if a.account_id != len(accounts) - 1:
-                        M.viol('new_account: account ids are not issued consecutively', a.account_id, len(accounts) - 1)
+                    if a.account_id in accounts[:-1]:
+                        M.viol('new_account returned an account id that exists already', a.account_id, 'a new account id')
                 else:
                     op = 'skip'
             elif op == 'key_for_path':
@@ -306,11 +306,22 @@ def run_wallet(case, col):
     # master / account public export
     try:
         if kind == 'hd':
+            # several exports from the same wallet object, one per account, in random order (and the default twice)
+            order = list(accounts) + [case.get('default_account', 0)]
+            rnd.shuffle(order)
+            for a_ in order:
+                col.probe('public_master_check')
+                pm = w.public_master(account_id=a_)
+                want = ref.account_key(a_).serialize(rchain.hd_prefix(network, wt, False, False), private=False)
+                if pm.wif != want:
+                    M.viol('public_master(account_id=%d).wif differs from the reference account xpub' % a_, pm.wif, want)
+                wf = w.wif(is_private=False, account_id=a_)
+                if wf != want:
+                    M.viol('wif(is_private=False, account_id=%d) differs from the reference account xpub' % a_, wf, want)
             pm = w.public_master()
-            rk = ref.account_key(0)
-            want = rk.serialize(rchain.hd_prefix(network, wt, False, False), private=False)
+            want = ref.account_key(case.get('default_account', 0)).serialize(rchain.hd_prefix(network, wt, False, False), private=False)
             if pm.wif != want:
-                M.viol('public_master().wif differs from the reference account xpub', pm.wif, want)
+                M.viol('public_master().wif differs from the reference xpub of the default account', pm.wif, want)
     except Exception as e:
         M.viol('public_master raised %r' % (e,), repr(e), None)
     # ---------------------------------------------------------------- restore
@@ -410,7 +421,8 @@ def run_shard(spec, col):
         network = NETWORKS[(k * 16 + spec['shard'] + spec['seed']) % len(NETWORKS)]
         wt = rnd.choice(['legacy', 'p2sh-segwit', 'segwit']) if not network.startswith('dogecoin') else 'legacy'
         case = {'wseed': '%d-%d-%d' % (spec['seed'], spec['shard'], k), 'kind': kind, 'wt': wt, 'network': network,
-                'n_ops': rnd.randint(5, spec['max_ops']), 'seedlen': rnd.choice([16, 32, 64])}
+                'n_ops': rnd.randint(5, spec['max_ops']), 'seedlen': rnd.choice([16, 32, 64]),
+                'default_account': rnd.choice([0, 0, 1, 2]) if kind == 'hd' else 0}
         if kind == 'multisig':
             n = rnd.randint(2, 4)
             case.update({'n': n, 'm': rnd.randint(1, n), 'own': rnd.randrange(n), 'sort': True})
